@@ -29,8 +29,9 @@ use super::real::*;
 use super::refcodec::Limits;
 use crate::util::StepOut;
 use std::panic::{catch_unwind, AssertUnwindSafe};
-use std::sync::{Arc, Condvar, Mutex};
-use std::time::Duration;
+use std::sync::atomic::{AtomicU64, Ordering};
+use std::sync::{Mutex, Once, OnceLock};
+use std::time::{Duration, Instant};
 
 /// Pieces above this size are "huge": no second encoding, no flattening, no byte-wise comparison.
 pub const SMALL_MAX: usize = 8 << 20;
@@ -61,41 +62,59 @@ fn raw_stdout(text: &str) {
     }
 }
 
-/// Runs `f`; if it has not returned after the budget, prints `O did-not-return`, one `V` line per
-/// entry of `on_expiry`, and exits the process (status 0: the transcript up to here is valid and
-/// carries the verdict).
+/// The armed deadline (milliseconds since `EPOCH`; 0 = nothing is being watched) and what to
+/// print when it passes.  One polling thread per process, started on first use: arming and
+/// disarming are two stores, no thread is created or joined per op.
+static DEADLINE_MS: AtomicU64 = AtomicU64::new(0);
+static ON_EXPIRY: Mutex<Vec<String>> = Mutex::new(Vec::new());
+static WATCHER: Once = Once::new();
+static EPOCH: OnceLock<Instant> = OnceLock::new();
+
+fn now_ms() -> u64 {
+    EPOCH.get_or_init(Instant::now).elapsed().as_millis() as u64 + 1
+}
+
+fn start_watcher() {
+    WATCHER.call_once(|| {
+        now_ms();
+        std::thread::spawn(|| loop {
+            std::thread::sleep(Duration::from_millis(200));
+            let d = DEADLINE_MS.load(Ordering::SeqCst);
+            if d != 0 && now_ms() > d {
+                let mut text = String::from("O did-not-return\n");
+                for v in ON_EXPIRY.lock().unwrap().iter() {
+                    text.push_str("V ");
+                    text.push_str(v);
+                    text.push('\n');
+                }
+                text.push_str("# aborted by the watchdog\n");
+                // still armed?  (the call may have returned in the meantime)
+                if DEADLINE_MS.load(Ordering::SeqCst) == d {
+                    raw_stdout(&text);
+                    std::process::exit(0);
+                }
+            }
+        });
+    });
+}
+
+struct Disarm;
+impl Drop for Disarm {
+    fn drop(&mut self) {
+        DEADLINE_MS.store(0, Ordering::SeqCst);
+    }
+}
+
+/// Runs `f`; if it has not returned (or panicked) after the budget, the watcher thread prints
+/// `O did-not-return`, one `V` line per entry of `on_expiry`, and exits the process (status 0: the
+/// transcript up to here is valid and carries the verdict).
 fn watched<T>(on_expiry: Vec<String>, f: impl FnOnce() -> T) -> T {
     let budget = std::env::var("WP_ZERO_WATCHDOG_SECS").ok().and_then(|s| s.parse().ok()).unwrap_or(WATCHDOG_SECS);
-    let done = Arc::new((Mutex::new(false), Condvar::new()));
-    let d2 = done.clone();
-    let handle = std::thread::spawn(move || {
-        let (m, cv) = &*d2;
-        let g = m.lock().unwrap();
-        let (g, res) = cv.wait_timeout_while(g, Duration::from_secs(budget), |finished| !*finished).unwrap();
-        if res.timed_out() && !*g {
-            let mut text = String::from("O did-not-return\n");
-            for v in &on_expiry {
-                text.push_str("V ");
-                text.push_str(v);
-                text.push('\n');
-            }
-            text.push_str("# aborted by the watchdog\n");
-            raw_stdout(&text);
-            std::process::exit(0);
-        }
-    });
-    // a panic in `f` must also release the watchdog
-    let r = catch_unwind(AssertUnwindSafe(f));
-    {
-        let (m, cv) = &*done;
-        *m.lock().unwrap() = true;
-        cv.notify_all();
-    }
-    let _ = handle.join();
-    match r {
-        Ok(v) => v,
-        Err(e) => std::panic::resume_unwind(e),
-    }
+    start_watcher();
+    *ON_EXPIRY.lock().unwrap() = on_expiry;
+    DEADLINE_MS.store(now_ms() + budget * 1000, Ordering::SeqCst);
+    let _disarm = Disarm;
+    f()
 }
 
 // ---------------------------------------------------------------------------
